@@ -453,8 +453,10 @@ def addr_map_entity(
         def _gen_addr_map_(cls):
             cache_name = "_cohdlstd_AddrMap"
 
-            if hasattr(cls, cache_name):
-                return getattr(cls, cache_name)
+            # only use the address map generated for this class,
+            # derived classes can define additional registers
+            if cache_name in cls.__dict__:
+                return cls.__dict__[cache_name]
 
             if addr_map is not None:
                 if isinstance(addr_map, str):
@@ -491,7 +493,7 @@ def addr_map_entity(
                         break
 
                     for name, val in mro_elem.__dict__.items():
-                        if name in members:
+                        if name in members or name == cache_name:
                             continue
 
                         members[name] = val
